@@ -114,9 +114,13 @@ func init() {
 		ID: "C11",
 		Rule: "quick: 5 repo-file cases + 320 segmenter + 220 resegmenter + 300 combine-segs + 800 Fragmentify cases (about 4 100 tool runs + 6 400 library calls); thorough: 9 600 + 6 600 + 9 000 + 24 000 (about 125 000 tool runs + 192 000 library calls). " +
 			"segmenter case = one generated progressive movie (gen/prog.RandomMovie, own serializer, real avc1/hvc1/mp4a sample entries; exactly one video track and at most one audio track as the tool documents, 5% other track sets; stss/ctts v0,v1/sdtp/edts, stco|co64, all chunkings and interleavings, 35% adversarial timing) x 8 runs of bin/tools/segmenter over the flag sets {}, -m, -lazy, -m -lazy with -d from {1 ms, half a GOP, GOP-1, GOP, GOP+1, 1.5 GOP, 2..3 GOP, random, total, total+1000 ms}; " +
-			"resegmenter case = one generated single-track fragmented file (gen/frag history built by hand: video GOPs 1..n or audio, 8..80 samples, 1..4 segments x 1..3 fragments, cuts GOP-aligned or arbitrary, full/metadata-only/interval mdat modes, trun optimisation on/off, fields defaulted through trex, with/without styp, base decode time 0 or not, cto 0/positive/negative, 1/6 with boundary field values (durations 0/2^31/2^32-1, cto at the 2^31 edges, random flags, sizes 0..7), 8% with a decode-time gap between two fragments; 20% from gen/frag.Generate single-track) x 6 runs of bin/tools/resegmenter -d ticks from {1, half GOP, GOP-1, GOP, GOP+1, 2..3 GOP, presentation time of a later sync sample exactly and -1/+1, total+1000, 2^40}; " +
+			"resegmenter case = one generated single-track fragmented file (input routes, shared by resegmenter, Fragmentify and combine-segs cases: 45% shaped/bytes, 10% shaped/api-optimized, the rest the single-trun API histories described next; " +
+			"shaped/bytes = media part (styp, moof{mfhd, traf{tfhd, tfdt, trun x 1..4}}, mdat) assembled byte by byte in props/c11/shapes.go without any mp4ff call: per traf and per field (duration, size, flags) one of explicit in every trun | explicit + unused tfhd default (decoy) | tfhd default only | trex default only | mixed trun/tfhd | mixed trun/trex, runs without sample flags get first_sample_flags in 3 of 5 draws, composition offsets absent when all 0 (2/3), trun version 0 or 1, tfdt version 0 or 1, sample_description_index present or not, data offsets relative to the moof (default-base-is-moof flag, or no flag) or to a tfhd base_data_offset (moof start, mdat payload start, middle of the payload = negative trun data offsets, file start), runs' data in mdat in run order or permuted (1/4), filler bytes between runs (1/5), 64-bit mdat size (1/12), tfhd / trex defaults equal to or different from each other, hostile variant with boundary durations/sizes/flags also as default values; runs cut at GOP boundaries or anywhere; the samples of a run that relies on a default take the default's value, so the ground truth is the generator's resolved sample list; " +
+			"shaped/api-optimized = the same 1..4-run plan with explicit values built through mp4.CreateFragment + traf.AddChild(mp4.CreateTrun(k)) + TrunBox.AddSample and written with EncOptimize = mp4.OptimizeTrun (Encode or EncodeSW), in 1/3 of the non-combine draws with the per-sample fields that equal the trex defaults cleared in every run; " +
+			"every input is accepted only if the reference expansion (ref/frag) of its bytes equals the generator's sample list; seen.input_truns_per_traf / input_duration_source / input_size_source / input_flags_source / input_trun_shape / input_data_offset_base are read from the input bytes by the reference reader; " +
+			"single-trun API histories = gen/frag history built by hand: video GOPs 1..n or audio, 8..80 samples, 1..4 segments x 1..3 fragments, cuts GOP-aligned or arbitrary, full/metadata-only/interval mdat modes, trun optimisation on/off, fields defaulted through trex, with/without styp, base decode time 0 or not, cto 0/positive/negative, 1/6 with boundary field values (durations 0/2^31/2^32-1, cto at the 2^31 edges, random flags, sizes 0..7), 8% with a decode-time gap between two fragments; 20% from gen/frag.Generate single-track) x 6 runs of bin/tools/resegmenter -d ticks from {1, half GOP, GOP-1, GOP, GOP+1, 2..3 GOP, presentation time of a later sync sample exactly and -1/+1, total+1000, 2^40}; " +
 			"Fragmentify case = the same generator (also with hostile field values) -> mp4.DecodeFile -> MediaSegment.Fragmentify(timescale, trex, d) for every segment and 8 values of d, output fragments encoded with Fragment.Encode; " +
-			"combine-segs case = two generated single-track inputs (one segment, one fragment, arbitrary field values incl. 2^31 cto edges and 64-bit decode times, verified by the reference expansion not to depend on trex) placed as testdata/V300/{init.mp4,1.m4s} and testdata/A48/{init.mp4,1.m4s} in a scratch cwd; " +
+			"combine-segs case = two generated single-track inputs (one segment, one fragment with 1..4 runs, all three input routes restricted to what the tool documents: no field may come from trex, tfhd defaults / first_sample_flags / trun optimisation are in scope; absolute base_data_offset values count from the start of 1.m4s; arbitrary field values incl. 2^31 cto edges and 64-bit decode times, verified by the reference expansion not to depend on trex) placed as testdata/V300/{init.mp4,1.m4s} and testdata/A48/{init.mp4,1.m4s} in a scratch cwd; " +
 			"repo-file cases: mp4/testdata/prog_8s.mp4 and bbb_prog_10s.mp4 through the segmenter, examples/resegmenter/testdata/testV300.mp4 through the resegmenter and Fragmentify, the combine-segs testdata (ground truth = reference expansion of the input bytes). " +
 			"Oracle, only for exit status 0 / nil error: every produced file tiles (reference walker); per track the concatenation over all produced segments (in segment-number order, expanded by ref/frag with the produced init) equals the input list: payload bytes, size, duration, composition offset, decode time, flags (progressive input: sync bit, and the sdtp fields when the track has sdtp; fragmented input: all 32 bits); nothing missing or extra at the end (when only the end differs the fields of the common prefix are still compared); no produced segment without samples; the first reference-track sample of every produced segment (segmenter, resegmenter) is a sync sample of the input. " +
 			"Non-zero exits are counted by reason; exit status 2 / goroutine dump / recovered panic of the library call is counted under tool_crash, not a C11 violation. Non-trivial = a successful run whose output was compared (hash of input bytes, tool, flags and duration); evaluations = tool runs + Fragmentify calls.",
@@ -128,6 +132,7 @@ func init() {
 			"the segmenter documents 'at most one audio and one video track' and needs a video track with stss: other inputs are run for evidence only (5%)",
 			"an output segment without any sample has no first sample: it is reported under its own key (empty-segment), not under sync-start",
 			"input files whose first sample of the reference track is not a sync sample are not generated",
+			"generated track runs never combine first-sample-flags-present with sample-flags-present (ISO/IEC 14496-12 8.8.8.1 forbids it), every generated trun carries a data_offset and every traf a tfdt (runs whose data implicitly follows the previous run, and trafs whose decode time continues from the previous fragment, are not generated)",
 		},
 		Setup:    setup,
 		NumCases: func(env *runner.Env) int { buildPlan(env); return len(plan) },
